@@ -263,9 +263,12 @@ func main() {
 			{"src/internal/runtime/maps/table.go", "it.dirOffset = rand()", "it.dirOffset = 0"},
 			{"src/internal/runtime/maps/map.go", "m.seed = uintptr(rand())", "m.seed = 0x5bd1e995"},
 			// In race builds sync.Pool.Put drops its argument at random (1 in 4) to break the
-			// happens-before edge that pool reuse creates. Dropping always makes the detector's
-			// view deterministic and removes every pool-mediated edge between tasks.
-			{"src/sync/pool.go", "if runtime_randn(4) == 0 {", "if true {"},
+			// happens-before edge that pool reuse creates; that made identical schedules report
+			// different races. Every 4th Put is dropped instead: deterministic, and objects are
+			// still re-used most of the time (so that faulty pool use -- an object released twice,
+			// used after release -- still hands one object to two tasks).
+			{"src/sync/pool.go", "if runtime_randn(4) == 0 {", "if poolDetDrop() {"},
+			{"src/sync/pool.go", "func (p *Pool) Put(x any) {", "var poolDetCtr uint32\n\n// poolDetDrop replaces the race build's random 1-in-4 drop by every 4th Put (the tasks of a\n// simulated run are serialised, so the plain counter is safe; norace keeps it out of reports).\n//\n//go:norace\nfunc poolDetDrop() bool { poolDetCtr++; return poolDetCtr%4 == 0 }\n\nfunc (p *Pool) Put(x any) {"},
 		}
 		content := map[string][]byte{}
 		okAll := true
